@@ -4,6 +4,7 @@ import (
 	"context"
 	"crypto/tls"
 	"fmt"
+	"io"
 	"net"
 	"sync"
 	"time"
@@ -212,9 +213,10 @@ func (b *UDPListener) Start(ctx context.Context, wg *sync.WaitGroup) (chan netce
 			if !ok {
 				b.sessRegLock.Lock()
 				sess = &UDPListenerSession{
-					li:       b,
-					raddr:    addr,
-					recvChan: make(chan []byte),
+					li:        b,
+					raddr:     addr,
+					recvChan:  make(chan []byte),
+					closeChan: make(chan struct{}),
 				}
 				b.sessionRegistry[addrStr] = sess
 				b.sessRegLock.Unlock()
@@ -231,6 +233,9 @@ func (b *UDPListener) Start(ctx context.Context, wg *sync.WaitGroup) (chan netce
 				_ = b.conn.Close()
 
 				return
+			case <-sess.closeChan:
+				// The session was closed after we looked it up: nobody reads from it any
+				// more, so drop the datagram rather than block every other peer forever.
 			case sess.recvChan <- data:
 			}
 		}
@@ -244,9 +249,11 @@ func (b *UDPListener) Start(ctx context.Context, wg *sync.WaitGroup) (chan netce
 
 // UDPListenerSession implements BackendSession for UDPListener.
 type UDPListenerSession struct {
-	li       *UDPListener
-	raddr    *net.UDPAddr
-	recvChan chan []byte
+	li        *UDPListener
+	raddr     *net.UDPAddr
+	recvChan  chan []byte
+	closeChan chan struct{}
+	closeOnce sync.Once
 }
 
 // Send sends data over the session.
@@ -266,6 +273,8 @@ func (ns *UDPListenerSession) Recv(timeout time.Duration) ([]byte, error) {
 	select {
 	case data := <-ns.recvChan:
 		return data, nil
+	case <-ns.closeChan:
+		return nil, io.EOF
 	case <-time.After(timeout):
 		return nil, netceptor.ErrTimeout
 	}
@@ -273,6 +282,9 @@ func (ns *UDPListenerSession) Recv(timeout time.Duration) ([]byte, error) {
 
 // Close closes the session.
 func (ns *UDPListenerSession) Close() error {
+	ns.closeOnce.Do(func() {
+		close(ns.closeChan)
+	})
 	ns.li.sessRegLock.Lock()
 	defer ns.li.sessRegLock.Unlock()
 	delete(ns.li.sessionRegistry, ns.raddr.String())
